@@ -556,6 +556,14 @@ def replay(ctx, failing):
                 obs = sorted(observe_package(root, *inp['flags']))
         print('tree: %r\nexpected: %r\nobserved now: %r' % (inp['plan'], exp, obs))
         return obs != exp
+    if kind == 'package-e2e' and str(inp.get('label', '')).startswith('c07e:'):
+        # the package tree is regenerated from its label (seed, shard, index) and collected again
+        _p, seed_, shard_, idx_ = inp['label'].split(':')
+        res = _w_package_e2e((int(seed_), int(shard_), int(idx_) + 1))
+        again = [e for e in res['expect'] if e[1].get('label') == inp['label']]
+        print('package tree %s regenerated: %s' % (inp['label'], ('collected %r\nexpected  %r' % (again[0][3], again[0][2])) if again else
+                                                   'the doctests collected are those of its modules'))
+        return bool(again)
     if kind == 'docstring':
         r, _ = C.real_examples(inp.get('style', 'google'), inp['docstr'], inp.get('callname', 'f'), inp.get('lineno', 1))
         print('docstring: %r\nobserved now: %s' % (inp['docstr'], r))
